@@ -367,9 +367,18 @@ pub fn placement_advanced_pawns() -> impl Strategy<Value = PlacementRecipe> + Cl
 /// fixed-size list, counter or "nobody has that many" shortcut in generator, loader or search is at risk.
 pub fn placement_crowd() -> impl Strategy<Value = PlacementRecipe> + Clone {
     let side = || proptest::collection::vec((prop_oneof![4 => Just(4u8), 2 => Just(3u8), 1 => Just(2u8), 2 => Just(1u8), 1 => Just(0u8)], 0u8..64), 4..16);
-    (0u8..64, 0u8..64, side(), side(), any::<bool>(), 0u8..4).prop_map(|(wk, bk, w, b, white_to_move, lopsided)| {
+    (0u8..64, 0u8..64, side(), side(), any::<bool>(), 0u8..4, 0u8..12, proptest::collection::vec(0u8..64, 10..=10)).prop_map(|(wk, bk, w, b, white_to_move, lopsided, maxed, squares)| {
         let mut men: Vec<(u8, bool, u8)> = vec![];
         for (white, list) in [(true, w), (false, b)] {
+            // maxed: one side gets one kind at its limit first (nine queens, ten rooks / bishops / knights)
+            let mut list = list;
+            let m = if white { maxed } else { maxed.wrapping_sub(4) };
+            if (1..=4).contains(&m) {
+                let n = if m == 4 { 9 } else { 10 };
+                let mut first: Vec<(u8, u8)> = squares.iter().take(n).map(|&s| (m, s.wrapping_add(if white { 0 } else { 17 }) % 64)).collect();
+                first.extend(list);
+                list = first;
+            }
             // lopsided: one side keeps only a few men (wide open board for the other side's queens)
             let keep = if (lopsided == 1 && !white) || (lopsided == 2 && white) { 2 } else { 15 };
             let (mut q, mut r, mut bi, mut n, mut pw) = (0i32, 0i32, 0i32, 0i32, 0i32);
